@@ -25,6 +25,7 @@ def _profile_functions(store):
 
 
 def run_job(args):
+  sys.unraisablehook = lambda *a: None
   modname, job, opts = args
   t0 = time.perf_counter()
   out = dict(job=job.get('name'), ok=False)
@@ -52,7 +53,7 @@ def run_job(args):
     engine.KNOWN = known
     engine.JOBNAME = job.get('name', '')
     soft = tuple(getattr(mod, 'INDUCTION_PREFIXES', ()))
-    E = engine.explore(wrapped, max_paths=job.get('max_paths', opts.get('max_paths', 2000000)), soft_prefixes=soft or ('\0',))
+    E = engine.explore(wrapped, max_paths=job.get('max_paths', opts.get('max_paths', 2000000)), soft_prefixes=soft or ('\0',), shard=tuple(job['shard']) if job.get('shard') else None)
     fails = []
     hard = [f for f in E.failures if not soft or not f.name.startswith(soft)]
     softf = [f for f in E.failures if soft and f.name.startswith(soft)]
@@ -104,7 +105,7 @@ def main(argv=None):
   prop = a.prop.upper()
   tier = a.tier if a.tier in ('quick', 'thorough') else 'quick'
   modname = 'harness.%s' % prop.lower()
-  t0 = time.time()
+  t0 = time.perf_counter()
   try:
     mod = importlib.import_module(modname)
     jobs = mod.jobs(tier)
@@ -114,6 +115,16 @@ def main(argv=None):
     return 2
   if a.jobs:
     jobs = [j for j in jobs if fnmatch.fnmatch(j['name'], a.jobs)]
+  # a job may ask to be split over n workers by its first harness-level decisions
+  ex = []
+  for j in jobs:
+    n = j.get('shards', 1)
+    if n <= 1: ex.append(j); continue
+    D = j.get('shard_depth', max(1, (n - 1).bit_length()))
+    for i in range(n):
+      jj = dict(j); jj['shard'] = [i, n, D]; jj['name'] = '%s#%d/%d' % (j['name'], i, n); jj['cost'] = j.get('cost', 1) / n
+      ex.append(jj)
+  jobs = ex
   jobs.sort(key=lambda j: -j.get('cost', 1))
   opts = {}
   results = []
@@ -146,7 +157,7 @@ def main(argv=None):
           with ctx.Pool(min(a.procs, len(j2))) as pool:
             for r in pool.imap_unordered(run_job, [(modname, j, opts) for j in j2], chunksize=1):
               results.append(r)
-  return report(mod, prop, tier, seed, jobs, results, time.time() - t0, write=not a.no_evidence and not a.jobs, filtered=bool(a.jobs))
+  return report(mod, prop, tier, seed, jobs, results, time.perf_counter() - t0, write=not a.no_evidence and not a.jobs, filtered=bool(a.jobs))
 
 
 def do_replay(path):
